@@ -316,6 +316,24 @@ def run_property(prop, module, conds, tier, seed=0, extra_evidence=None, extra_r
                         traces_validated += 1
                         if len(twin_samples) < 4:
                             twin_samples.append({"condition": name, "witness": r.get("twin_args"), "real_implementation": rp.get("detail", "")[:200]})
+                    elif rp.get("status") == "violates":
+                        # the solver-produced witness, run on the real (uncut, real-clock) code, breaks the property:
+                        # the symbolic run missed it because the executor neutralises something the real run has
+                        # (e.g. functools caches), the replay is the ground truth
+                        full = r.get("twin_args")
+                        hit = [e for e in known if match_known(e, name, full, rp.get("detail", ""))]
+                        if hit:
+                            known_hit.append((hit[0], name, full))
+                        else:
+                            os.makedirs(replay_dir, exist_ok=True)
+                            rpath = os.path.join(replay_dir, "%s_%d_witness.json" % (name, k))
+                            with open(rpath, "w") as fh:
+                                json.dump({"property": prop, "module": module, "condition": name, "args": full,
+                                           "crosshair": "reachability witness; violation only on the real implementation", "replay": rp}, fh, indent=1)
+                            lines.append("VIOLATION property=%s replay=%s" % (prop, rpath))
+                            violations += 1
+                            samples.append({"condition": name, "partition": jobby[r["key"]]["fixed"], "verdict": "VIOLATION (witness replay)",
+                                            "witness": full, "detail": rp.get("detail", "")[:300]})
                     else:
                         inconclusive.append("%s[%d] reachability witness %r behaves differently on the real implementation (%s: %s)"
                                             % (name, k, r.get("twin_args"), rp.get("status"), rp.get("detail", "")[:300]))
